@@ -17,6 +17,10 @@ typedef COORD_T T;
 #define VVEC_CAP (SHAPE_N + 2)
 #define KD_POOL (SHAPE_N + 2)
 #include KD_UNIT
+/* the extracted unit includes the three stubs; named here again (include guards) so that the evidence scan lists their assumes */
+#include "stubs/C13_deque.h"
+#include "stubs/C13_pair.h"
+#include "stubs/C13_pool.h"
 
 #define N SHAPE_N
 #define NA (SHAPE_N + 1) /* array length: the shape arrays carry one trailing dummy so that they are never empty */
